@@ -10,6 +10,8 @@ C13.b all workers are joined before results are used: Packer::finalize and Actor
   (recv on the finish channel) and return it; the backup flushes packers, then the index, then writes the snapshot.
 C13.c every written pack is indexed: the pack writer pipeline has no filtering stage between write and index
   (R-ORDER 16, shared with C03).
+C13.e / C13.f structural conditions against self-inflicted deadlock (see termination_rules): no rayon wait inside a loop that
+  drains a rendezvous stream fed by rayon workers; the tree streamer's pending queue is unbounded.
 C13.d blob ids do not depend on pack boundaries: ids are computed from plaintext before packing (C07.c), and the
   in-packer duplicate filters only skip blobs (never reorder tree serialisation).
 """
@@ -72,6 +74,9 @@ def run(ctx, rep):
         rep.check("C13.a", "adaptors-ordered", len(adaptors) >= 5 and not bad, where=c.loc(),
                   what=f"all {len(adaptors)} adaptors between src.entries() and TreeArchiver::add preserve order: {adaptors}" if not bad else
                        f"the archive pipeline contains adaptors that do not preserve order (or are not on the allow-list): {bad}; tree entries would be added in scheduling order")
+    termination_rules(ctx, rep)
+    from rules import C08
+    C08.index_entry_rule(ctx, rep, "C13.c")
     # ---- C13.b -------------------------------------------------------------------------------------
     joined(ctx, rep, "C13.b")
     from rules import C03, C07
@@ -107,3 +112,68 @@ def joined(ctx, rep, rule):
              [bb for bb, t in F.calls() if "callee" in t and callee(t).endswith("std::mem::drop") and "sender" in flow.backward_slice(F, op_place(t["args"][0]))["fields"]]
         okd = bool(dr) and bool(rc) and all(C.can_reach(F, d, rc[0][0]) or d == rc[0][0] for d in dr)
         rep.check(rule, f"channel-closed-first/{fn.split('::')[0]}", okd, where=F.loc(), what=f"{fn} closes the input channel before waiting (the worker can terminate)")
+
+
+def termination_rules(ctx, rep):
+    """structural conditions against self-inflicted deadlocks (necessary, not sufficient):
+    C13.e the thread that consumes a rendezvous stream (stream_all / stream_list: rayon workers blocked in a zero-capacity
+      send) never waits on the rayon pool itself inside the consuming loop - otherwise, with all pool threads blocked
+      sending to it, the injected job can never run.
+    C13.f TreeStreamerOnce: the queue of pending tree ids, which is fed by the very thread that drains the bounded result
+      channel, is unbounded - a bounded one can fill up while all loaders block on the full result channel."""
+    prog, cg = ctx.prog, ctx.cg
+    rep.rule("C13.e", "consumers of rendezvous streams never block on the rayon pool inside the consuming loop")
+    rep.rule("C13.f", "the tree streamer's pending queue is unbounded")
+    RAYON_WAIT = re.compile(r"^rayon::iter::(ParallelIterator|IndexedParallelIterator|ParallelExtend|FromParallelIterator|ParallelDrainFull|ParallelDrainRange)::\w+$"
+                            r"|^rayon::slice::ParallelSliceMut::par_sort\w*$|^rayon::(join|scope|in_place_scope|scope_fifo)$|^rayon_core::(join|scope)")
+    direct = set()
+    for b in list(prog.bodies.values()):
+        for _, t in b.calls():
+            if "callee" in t and (RAYON_WAIT.search(callee_decl(t)) or RAYON_WAIT.search(callee(t))):
+                direct.add(b.path)
+    n = 0
+    for b in prog.by_crate["rustic_core"]:
+        for bb, t in b.calls():
+            if "callee" not in t or not re.search(r"crossbeam_channel::IntoIter<T> as std::iter::Iterator>::next$|crossbeam_channel::Receiver::<T>::recv$", callee(t)):
+                continue
+            src = flow.backward_slice(b, op_place(t["args"][0]))["calls"] if op_place(t["args"][0]) else set()
+            if not any(re.search(r"::stream_all$|::stream_list$", c) for c in src):
+                continue
+            loops = [(h, C.loop_blocks(b, h, l)) for (l, h) in C.back_edges(b)]
+            mine = [bl for (h, bl) in loops if bb in bl]
+            if not mine:
+                continue
+            blocks = min(mine, key=len)
+            n += 1
+            bad = []
+            for (cb, ct, kind, tgts, info) in cg.sites(b):
+                if cb not in blocks or cb == bb:
+                    continue
+                if ct is not None and "callee" in ct and (RAYON_WAIT.search(callee_decl(ct)) or RAYON_WAIT.search(callee(ct))):
+                    bad.append((cb, callee_decl(ct)))
+                    continue
+                if not tgts:
+                    continue
+                seen = cg.reachable(tgts)
+                hit = [p for p in seen if p in direct]
+                if hit:
+                    chain = cg.path_to(seen, hit[0])
+                    bad.append((cb, " -> ".join(strip_crate(x) for x in chain[-3:])))
+            rep.check("C13.e", f"{fn_key(b)}/stream-consumer", not bad, where=where(b, bb),
+                      what=f"{fn_key(b)}: nothing called while consuming the rendezvous stream waits on the rayon pool" if not bad else
+                           f"{fn_key(b)}: inside the loop that drains a zero-capacity stream fed by rayon workers, a rayon parallel operation is started ({bad[0][1]} at {where(b, bad[0][0])}): with every pool thread blocked in send() the job never runs (deadlock on small pools / many files)")
+    rep.floor("C13.e", "loops consuming stream_all/stream_list", n, 5)
+    # ---- C13.f
+    NW = prog.find1(r"^rustic_core::blob::tree::TreeStreamerOnce::new$")
+    aggs = [(bi, s_) for bi, blk in enumerate(NW.blocks) for s_ in blk["s"] if s_[0] == "=" and s_[2][0] == "agg" and s_[2][1][0] == "adt" and s_[2][1][1].endswith("tree::TreeStreamerOnce")]
+    rep.require("C13.f", "constructor", len(aggs) == 1, where=NW.loc(), what="TreeStreamerOnce::new builds the streamer once")
+    if len(aggs) == 1:
+        bi, s_ = aggs[0]
+        names = s_[2][1][3]
+        if "queue_in" in names:
+            sl = flow.backward_slice(NW, op_place(s_[2][2][names.index("queue_in")])) if op_place(s_[2][2][names.index("queue_in")]) else {"calls": set()}
+            unb = any(c == "crossbeam_channel::unbounded" for c in sl["calls"]) and not any(c == "crossbeam_channel::bounded" for c in sl["calls"])
+            rep.check("C13.f", "pending-queue-unbounded", unb, where=where(NW, bi), what="the pending-id queue the consumer feeds while draining the bounded result channel is unbounded" if unb else
+                      "the pending-id queue is bounded: the consumer can block on it while every loader blocks on the full result channel (deadlock on wide trees / many snapshots)")
+        else:
+            rep.check("C13.f", "pending-queue-unbounded", False, where=where(NW, bi), what="field queue_in not found")
